@@ -31,7 +31,8 @@ var keyProps = map[string][]string{
 	"selection-handed-twice":           {"C12"},
 	"double-supersede":                 {"C03", "C12"},
 	"pool-unexpected":                  {"C03", "C12"},
-	"failed-":                          {"C05"},
+	"failed-":                          {"C05", "C01", "C02"},
+	"after-failed-op:":                 {"C05"},
 	"fault-ignored":                    {"C05"},
 	"running-differs-from-reopened":    {"C05"},
 	"copy-open-failed":                 {"C05"},
@@ -60,10 +61,10 @@ func propsOfKey(key string) []string {
 
 var profiles = map[string]*Profile{
 	"C01": {Name: "walks", Steps: 34, Fee: []bool{false, true}, Windows: []int64{0, 0, 2},
-		W:         map[string]int{"xfer": 6, "ktx": 7, "mine": 4, "foreign": 4, "fork": 5, "walk": 4, "reopen": 1, "sync": 2, "xfer-bad": 1, "xfer-hold": 1, "submit-held": 1, "badblock": 2},
+		W:         map[string]int{"xfer": 6, "ktx": 7, "mine": 4, "foreign": 4, "fork": 5, "walk": 4, "reopen": 1, "sync": 2, "xfer-bad": 1, "xfer-hold": 1, "submit-held": 1, "badblock": 2, "fault": 2, "mine-auto-stale": 2},
 		EndChecks: []string{"sync", "obs", "replica", "walk 0", "replica", "sync", "replica"}},
 	"C02": {Name: "amounts", Steps: 30, Fee: []bool{true}, Windows: []int64{0},
-		W:         map[string]int{"xfer": 10, "xfer-bad": 4, "mine": 4, "foreign": 3, "fork": 3, "walk": 3, "sync": 2, "resubmit": 1, "xfer-hold": 3, "submit-held": 3, "mine-auto": 2, "balrace": 3, "badblock": 3},
+		W:         map[string]int{"xfer": 10, "xfer-bad": 4, "mine": 4, "foreign": 3, "fork": 3, "walk": 3, "sync": 2, "resubmit": 1, "xfer-hold": 3, "submit-held": 3, "mine-auto": 2, "balrace": 3, "badblock": 3, "fault": 2},
 		EndChecks: []string{"sync", "obs"}},
 	"C03": {Name: "conflicts", Steps: 36, Fee: []bool{false, true}, Windows: []int64{0},
 		W: map[string]int{"xfer": 5, "xfer-bad": 4, "resubmit": 3, "ktx": 5, "ktx-two": 5, "ktx-old": 3, "mine": 3, "foreign": 5, "fork": 3,
@@ -80,7 +81,7 @@ var profiles = map[string]*Profile{
 		W:         map[string]int{"xfer": 4, "ktx": 4, "race": 10, "balrace": 6, "selrace": 4, "mine": 3, "foreign": 3, "fork": 2, "walk": 2, "sync": 2},
 		EndChecks: []string{"sync", "obs"}},
 	"C17": {Name: "finality", Steps: 34, Fee: []bool{false}, Windows: []int64{1, 2, 3, 0},
-		W:         map[string]int{"xfer": 2, "ktx": 2, "mine": 6, "foreign": 5, "fork": 7, "walk": 6, "sync": 3, "reopen": 2},
+		W:         map[string]int{"xfer": 2, "ktx": 2, "mine": 6, "foreign": 5, "fork": 7, "walk": 6, "sync": 3, "reopen": 2, "badblock": 2},
 		EndChecks: []string{"sync", "obs"}},
 	"C18": {Name: "snapshots", Steps: 34, Fee: []bool{false}, Windows: []int64{0},
 		W:         map[string]int{"ktx": 12, "mine": 6, "foreign": 4, "fork": 3, "walk": 2, "sync": 2, "snap": 3, "xfer": 1},
@@ -140,7 +141,9 @@ func main() {
 			kvmem.Drop(args.Scratch)
 		}
 	}
-	if prop == "C04" {
+	if prop == "C04" || prop == "C05" {
+		// C05 (failed operations leave no trace; running == reopened) also holds of the ledger alone: the ledger
+		// histories of C04 (with refused blocks of every kind) run for C05 too, before its own profile
 		n := xvlib.EnvInt("XV_CASES", 0)
 		if n == 0 {
 			n = 400
@@ -156,8 +159,12 @@ func main() {
 			}
 			kvmem.Drop(args.Scratch)
 		}
-		out.Stats.Rule = fmt.Sprintf("%d generated ledger histories of 10-40 steps: blocks attached to random stored blocks (depth bias) carrying 0-2 of 5 transactions (the same transaction on several branches), duplicates, late arrivals, blocks with unknown parent, truncations to main-chain blocks, undo/todo queries, reopen; after every mutation all C04 queries are checked against the tree kept by the harness; non-trivial = more than 4 blocks", n)
-		return
+		ledgerRule := fmt.Sprintf("%d generated ledger histories of 10-40 steps: blocks attached to random stored blocks (depth bias) carrying 0-2 of 5 transactions (the same transaction on several branches), duplicates, late arrivals, blocks with unknown parent, truncations to main-chain blocks, undo/todo queries, reopen; after every mutation all C04 queries are checked against the tree kept by the harness; non-trivial = more than 4 blocks", n)
+		if prop == "C04" {
+			out.Stats.Rule = ledgerRule
+			return
+		}
+		out.Stats.Notes = append(out.Stats.Notes, "before the profile: "+ledgerRule)
 	}
 	p := profiles[prop]
 	if p == nil {
